@@ -214,3 +214,43 @@ def run_errset(prog, tier, repo):
                           f'program is compiled')
     res.floor('public report methods', len(reporters), 20)
     return [res]
+
+
+def run_assign_all_paths(prog, tier, repo):
+    """ASSIGN-ALL-PATHS (C06/C03): the checker compares the operand types of every unary and binary operator and the two
+    branches of every if-else with the expected type on *every* path through the function that types that construct.
+    Instances (confirmed by reading, frozen): the checker functions taking &Binary, &Unary, &IfElse of the untyped tree."""
+    from ..cfg import cfg_of
+    from ..facts import strip_refs
+    res = RuleResult('ASSIGN-ALL-PATHS', 'C06: an operand or branch of the wrong type is always rejected - typing an operator or an '
+                     'if-else performs an assignability check on every path')
+    ROLES = {'samlang_ast::source::expr::Binary': 'binary operator', 'samlang_ast::source::expr::Unary': 'unary operator',
+             'samlang_ast::source::expr::IfElse': 'if-else'}
+    found = {}
+    for b in prog.bodies.values():
+        if not b.name.startswith('samlang_checker::main_checker::') or b.kind == 'closure':
+            continue
+        rt = b.locals[0]
+        if not (rt.k == 'adt' and rt.name.startswith('samlang_ast::source::expr::')):
+            continue
+        for i in range(1, b.nargs + 1):
+            t = strip_refs(b.locals[i])
+            if t.k == 'adt' and t.name in ROLES and t.args and t.args[0].k == 'tup':
+                found.setdefault(t.name, []).append(b)
+    for name, what in sorted(ROLES.items()):
+        bs = found.get(name, [])
+        if len(bs) != 1:
+            res.cannot_decide(f'the checker function that types a {what} (found {len(bs)})')
+            continue
+        b = bs[0]
+        cfg = cfg_of(b)
+        checks = [bi for bi, bl in enumerate(b.blocks) if not bl.cleanup and bl.term[0] == 'call'
+                  and (callee(bl.term)[1] or '').endswith('main_checker::assignability_check')]
+        key = f'assign:{what}'
+        if checks and cfg.nodes_postdominate(checks, 0):
+            res.ok(key, b.loc(), f'{b.name}: every path performs an assignability check ({len(checks)} sites)')
+        else:
+            res.violation(key, b.loc(), f'{b.name} has a path that types a {what} without any assignability check: an ill-typed operand '
+                          f'or branch on that path (for instance a mismatching `else if` chain) is accepted and reaches the '
+                          f'back ends')
+    return [res]
